@@ -241,7 +241,34 @@ class Ctx:
     def oblige(self, name, formula, kind='ensures', info=None):
         if isinstance(formula, bool):
             formula = z3.BoolVal(formula)
+        self.link_named_sums()
         self.obligations.append(Obligation(name, self.pc + self.axioms, formula, kind, info))
+
+    def link_named_sums(self):
+        """Two finite sums the code named separately (e.g. np.sum of the same array computed twice) get their
+        symbols equated when their definitions are provably equal (Sigma-extensionality) - otherwise an
+        equivalent re-formulation of the code could look like a counterexample."""
+        named = list(S.NAMED_SUMS.values())[self.named_mark:]
+        done = getattr(self, '_linked', 0)
+        if len(named) <= done or len(named) < 2:
+            self._linked = len(named)
+            return
+        self._linked = len(named)           # set first: the check below emits obligations in a scratch context
+        from . import prove
+        for k in range(max(done, 1), len(named)):
+            vk, sk = named[k]
+            for j in range(k):
+                vj, sj = named[j]
+                sub = Ctx(self.world, [])
+                sub.pc, sub.soft, sub.axioms = list(self.pc), set(self.soft), list(self.axioms)
+                sub.counter, sub.named_mark, sub._linked = self.counter, self.named_mark, len(named)
+                try:
+                    prove.sum_zero(sub, 'same', S.sub(sk, sj))
+                except (Unsupported, TypeError):
+                    continue
+                if sub.obligations and all(prove.discharge(o, 2000, quick=True).status == 'discharged' for o in sub.obligations):
+                    self.axioms.append(vk == vj)
+                    break
 
     def require(self, name, cond, exc=None):
         """A safety condition of a library operation.  With `exc` the failure is an outcome
